@@ -1,6 +1,7 @@
 SPECIFICATION MCSpec
 CONSTANT Params <- BigParams
 CONSTANT MkCase <- BigCase
+CONSTANT HugeLen8s = {}
 CONSTANT MaxPow = 20
 INVARIANT DesignAccepted
 INVARIANT DesignControlled
